@@ -344,5 +344,8 @@ def run(ctx):
                                                     design_cfgs=[("Mirror_c06.cfg", {"MaxSteps": 4 if q else 5}, "C06_Recount on every reachable state of the equivocation world")])
     cov["mirror_level"] = {k: mcov[k] for k in ("design_checks", "behaviours_replayed_on_real_code", "steps_replayed",
                                                  "distinct_abstract_states_reached_on_real_code", "spec_vs_code_divergences")}
+    # code -> spec direction: the repository's own tests run under the invariant monitor
+    import suitemon
+    cov.update(suitemon.run_suite(ctx, {"C06"}, kind="mirror"))
     rc = ctx.finish("model_checking", extra_cov=cov)
     return mirrorcheck.conclude(rc, mismatches, inconcl)
